@@ -89,10 +89,10 @@ DEFAULT_WEIGHTS = {
   'add_records': 16, 'update_records': 14, 'remove_records': 6, 'replace_data': 0, 'upsert': 0,
   'add_table': 3, 'add_empty_table': 0.5, 'add_raw_table': 0.3, 'remove_table': 1, 'rename_table': 1.5,
   'duplicate_table': 0.7,
-  'add_data_column': 4, 'add_formula_column': 6, 'add_trigger_column': 1.5, 'add_ref_column': 3,
+  'add_data_column': 4, 'add_formula_column': 6, 'add_trigger_column': 0, 'add_ref_column': 3,
   'add_visible_column': 0.5, 'add_hidden_column': 0.3,
   'remove_column': 2.5, 'rename_column': 3, 'modify_type': 3.5, 'modify_formula': 3,
-  'to_formula': 1, 'to_data': 1, 'modify_label': 1, 'modify_widget': 0.7, 'modify_recalc': 0.7,
+  'to_formula': 1, 'to_data': 1, 'modify_label': 1, 'modify_widget': 0.7, 'modify_recalc': 0,
   'meta_update_col': 1.5, 'meta_update_table': 0.5,
   'set_display_formula': 1, 'add_empty_rule': 0.7, 'add_reverse': 1.2, 'copy_from_column': 0.5,
   'rename_choices': 0.5, 'convert_from_column': 0.3, 'set_visible_col': 0.8,
@@ -112,7 +112,7 @@ class Gen(object):
       self.w.update(weights)
     # flags: max_tables, max_rows, wrong (share of wrong-typed values), formula_kinds, no_stringify
     self.flags = {'max_tables': 5, 'max_cols': 9, 'max_rows': 12, 'wrong': 0.1, 'bundle_multi': 0.3,
-                  'formula_off': (), 'types': TYPES, 'explicit_ids': 0.1, 'neg_ids': 0.1,
+                  'formula_off': ('trigger_self',), 'types': TYPES, 'explicit_ids': 0.1, 'neg_ids': 0.1,
                   # triggers of open findings (known_findings.jsonl) are off unless a check turns them on
                   'invalid_off': ('bad_type', 'short_bulk')}
     if flags:
